@@ -142,12 +142,15 @@ enum Case {
 	Batch { limit: u32, entries: Vec<Call> },
 	/// subscribe call over WebSocket; mode 0 accept (subscription id = string of `n` bytes), 1 reject (error data of `n` bytes)
 	Subscribe { limit: u32, id: String, mode: u8, n: u32 },
+	/// unsubscribe call over WebSocket whose request id (a JSON string, given as text) makes the acknowledgement land
+	/// around or beyond the limit; `live`: a subscription with that subscription id exists (answer true), else false
+	Unsubscribe { limit: u32, id: String, live: bool },
 }
 
 impl Case {
 	fn limit(&self) -> u32 {
 		match self {
-			Case::Single { limit, .. } | Case::Batch { limit, .. } | Case::Subscribe { limit, .. } => *limit,
+			Case::Single { limit, .. } | Case::Batch { limit, .. } | Case::Subscribe { limit, .. } | Case::Unsubscribe { limit, .. } => *limit,
 		}
 	}
 }
@@ -707,6 +710,15 @@ fn plan_subscribe(r: &mut Rng, limit: u32) -> Case {
 	Case::Subscribe { limit, id, mode, n: want.saturating_sub(base) as u32 }
 }
 
+fn plan_unsubscribe(r: &mut Rng, limit: u32) -> Case {
+	// the subscribe call that precedes a live case is answered `{"jsonrpc":"2.0","id":0,"result":"s"}` (36 bytes)
+	let live = limit >= 36 && r.chance(2, 3);
+	let base = format!("{{\"jsonrpc\":\"2.0\",\"id\":\"\",\"result\":{}}}", if live { "true" } else { "false" }).len();
+	let want = if r.chance(1, 3) { limit as usize + 1 + r.usize(80) } else { pick_target(r, limit) };
+	let k = want.saturating_sub(base).min(60_000);
+	Case::Unsubscribe { limit, id: format!("\"{}\"", "u".repeat(k)), live }
+}
+
 fn subscribe_expected(id: &str, mode: u8, n: u32) -> String {
 	if mode == 0 {
 		format!("{{\"jsonrpc\":\"2.0\",\"id\":{id},\"result\":{}}}", enc(&Value::String("s".repeat(n as usize))))
@@ -736,10 +748,34 @@ fn parse_pay(s: &mut jsonrpsee_types::params::ParamsSequence<'_>) -> Result<PayS
 	Ok(PaySpec { shape: s.next()?, kind: s.next()?, units: s.next()?, fill: s.next()? })
 }
 
-fn do_gen(p: &Params<'_>) -> Result<Value, ErrorObjectOwned> {
+/// A handler result that can be serialised once: the first serialisation emits the value, any later one emits `null`
+/// (the serde `collect_seq` pattern over a consumed iterator). Half of the results are of this kind (odd `fill`); the
+/// reply the statement promises is what the value serialises to - the library has exactly one serialisation to decide
+/// with and to send.
+#[derive(Clone)]
+struct OneShot {
+	value: Value,
+	one_shot: bool,
+	used: Arc<std::sync::atomic::AtomicBool>,
+}
+static ONE_SHOT_RESULTS: AtomicUsize = AtomicUsize::new(0);
+impl Serialize for OneShot {
+	fn serialize<S: serde::Serializer>(&self, ser: S) -> Result<S::Ok, S::Error> {
+		if self.one_shot && self.used.swap(true, Ordering::SeqCst) {
+			return ser.serialize_unit();
+		}
+		self.value.serialize(ser)
+	}
+}
+
+fn do_gen(p: &Params<'_>) -> Result<OneShot, ErrorObjectOwned> {
 	let mut s = p.sequence();
 	let spec = parse_pay(&mut s)?;
-	Ok(payload(&spec))
+	let one_shot = spec.fill % 2 == 1;
+	if one_shot {
+		ONE_SHOT_RESULTS.fetch_add(1, Ordering::Relaxed);
+	}
+	Ok(OneShot { value: payload(&spec), one_shot, used: Default::default() })
 }
 
 fn do_err(p: &Params<'_>) -> Result<Value, ErrorObjectOwned> {
@@ -930,6 +966,7 @@ async fn run_case(env: &mut Env, case: &Case, ev: &mut Evidence, violations: &mu
 		Case::Single { call, .. } => request_text(call).len(),
 		Case::Batch { entries, .. } => entries.iter().map(|c| request_text(c).len() + 1).sum::<usize>() + 1,
 		Case::Subscribe { .. } => 0,
+		Case::Unsubscribe { id, .. } => id.len() + 60,
 	};
 	if request_len > env.max_request {
 		ev.count("skipped_request_near_request_limit", 1);
@@ -1114,6 +1151,59 @@ async fn run_case(env: &mut Env, case: &Case, ev: &mut Evidence, violations: &mu
 			violations.extend(vh);
 			violations.extend(vw);
 		}
+		Case::Unsubscribe { id, live, .. } => {
+			let mut live = *live;
+			if live {
+				env.sub_len.store(1, Ordering::SeqCst);
+				let (w, _, dead) = env.ws("{\"jsonrpc\":\"2.0\",\"id\":0,\"method\":\"sub\",\"params\":[0,1]}").await;
+				let ok = dead.is_none() && w.len() == 1 && parse_reply(&w[0]).ok().map(|v| v["result"] == json!("s")).unwrap_or(false);
+				if !ok {
+					ev.count("unsubscribe_cases_without_the_live_subscription", 1);
+					live = false;
+				}
+			}
+			let sub_id = if live { "s" } else { "no-such-subscription" };
+			let exp = format!("{{\"jsonrpc\":\"2.0\",\"id\":{id},\"result\":{live}}}");
+			let text = format!("{{\"jsonrpc\":\"2.0\",\"id\":{id},\"method\":\"unsub\",\"params\":[\"{sub_id}\"]}}");
+			let (w, _, dead) = env.ws(&text).await;
+			let class = if live { "unsubscribe-true" } else { "unsubscribe-false" };
+			let witness = json!({"case": case, "request": cut(text.as_bytes()), "expected_len": exp.len(), "replies": w.iter().map(|x| cut(x)).collect::<Vec<_>>(), "reply_lens": w.iter().map(|x| x.len()).collect::<Vec<_>>()});
+			let mut v = |k: &str, d: String| violations.push(Violation::new(format!("{k}/{class}"), format!("[ws] {d}"), witness.clone()));
+			if let Some(why) = &dead {
+				drop(v);
+				violations.push(Violation::new("connection-dead-after/ws-probe", why.clone(), witness.clone()));
+			} else if w.len() != 1 {
+				v(if w.is_empty() { "unanswered" } else { "multiple-replies" }, format!("{} frames for one unsubscribe call", w.len()));
+			} else {
+				let wire = &w[0];
+				match parse_reply(wire) {
+					Err(k) => v(k, format!("reply of {} bytes is not valid UTF-8 JSON", wire.len())),
+					Ok(parsed) => {
+						let exp_val: Value = serde_json::from_str(&exp).unwrap();
+						let fits = exp.len() <= limit as usize;
+						if fits {
+							if parsed != exp_val || wire.len() != exp.len() {
+								v("fitting-reply-altered", format!("expected {} got {}", cut(exp.as_bytes()), cut(wire)));
+							}
+						} else if parsed == exp_val {
+							v("oversized-reply-sent", format!("acknowledgement of {} bytes sent unchanged although the limit is {limit}", wire.len()));
+						} else if error_code(&parsed) != Some(TOO_BIG) || parsed.get("id") != Some(&serde_json::from_str::<Value>(id).unwrap()) {
+							v("replacement-wrong-code", format!("expected -32008 with id {}, got {}", cut(id.as_bytes()), cut(wire)));
+						} else {
+							ev.count("unsubscribe_replaced_by_32008", 1);
+						}
+					}
+				}
+			}
+			ev.eval();
+			ev.count("unsubscribe_cases", 1);
+			ev.count(if live { "unsubscribe_cases_with_a_live_subscription" } else { "unsubscribe_cases_unknown_subscription" }, 1);
+			ev.count("ws_frames", w.len() as u64 + 1);
+			record_len_stats(ev, "unsubscribe", exp.len(), limit);
+			if exp.len() as i64 - limit as i64 >= -2 {
+				ev.nontrivial(&(limit, &text));
+			}
+		}
 		Case::Subscribe { id, mode, n, .. } => {
 			let exp = subscribe_expected(id, *mode, *n);
 			env.sub_len.store(*n as usize, Ordering::SeqCst);
@@ -1194,7 +1284,8 @@ fn gen_cases(seed: u64, limit: u32, n: usize) -> Vec<Case> {
 			x if x < 90 => Case::Batch { limit, entries: plan_batch(&mut r, limit, 6) },
 			x if x < 96 && (100..=20_000).contains(&limit) => Case::Batch { limit, entries: plan_batch_invalid_tail(&mut r, limit) },
 			x if x < 96 => Case::Batch { limit, entries: plan_batch(&mut r, limit, 6) },
-			_ => plan_subscribe(&mut r, limit),
+			x if x < 98 => plan_subscribe(&mut r, limit),
+			_ => plan_unsubscribe(&mut r, limit),
 		})
 		.collect()
 }
@@ -1311,7 +1402,7 @@ fn run_direct_case(case: &Case, ev: &mut Evidence, violations: &mut Vec<Violatio
 					evals += 1;
 				}
 			}
-			Case::Subscribe { .. } => {}
+			Case::Subscribe { .. } | Case::Unsubscribe { .. } => {}
 		}
 		(vs, evals, replaced_n, refused_n)
 	}));
@@ -1541,5 +1632,6 @@ fn main() {
 			}
 		}
 	}
+	ev.set("handler_results_that_serialise_only_once", json!(ONE_SHOT_RESULTS.load(Ordering::Relaxed)));
 	finish(&ctx, ev, violations, inconclusive);
 }
